@@ -18,6 +18,10 @@ class InjectedModelFault(Exception):
     pass
 
 
+class InjectedModelStop(StopIteration):
+    pass
+
+
 class InjectedModelInterrupt(KeyboardInterrupt):
     """A BaseException that is not an Exception (what Ctrl-C during a simulation raises)."""
 
@@ -37,6 +41,8 @@ def _enter(theta, N, seed):
     k = N_CALLS
     N_CALLS += 1
     if FAULT_AT is not None and k == FAULT_AT:
+        if FAULT_INTERRUPT == "stop":
+            raise InjectedModelStop(f"model call {k}")
         if FAULT_INTERRUPT:
             raise InjectedModelInterrupt(f"model call {k}")
         raise InjectedModelFault(f"model call {k}")
